@@ -383,6 +383,9 @@ fn main() {
         for f in functions { for a in args { if f.starts_with("range(") && a.len() > 4 && !f.contains("step_by") { continue; } cases.push(format!("{{{{ {} }}}}", f.replace('A', a))); } }
         // (mid-sized range() ends are left out on purpose: they are a legitimate way to ask for gigabytes)
         for v in values { for t in tests { for a in ["0", "\"x\"", "-1"] { cases.push(format!("{{% if {v} is {} %}}y{{% endif %}}", t.replace('A', a))); } } }
+        // the expression language itself: every binary arithmetic operator on every pair of boundary numbers (the engine computes in i64 / f64)
+        let nums = ["0", "1", "-1", "2", "9223372036854775807", "-9223372036854775808", "1.5", "major", "-0.0"];
+        for x in nums { for op in ["+", "-", "*", "/", "%"] { for y in nums { cases.push(format!("{{{{ {x} {op} {y} }}}}")); } } }
         cases.sort(); cases.dedup();
         cases.par_iter().map(|tpl| {
             let mut st = Stats::default();
